@@ -94,6 +94,12 @@ func Tokens(src string, d [4]string) []Tok {
 			t := Tok{Kind: Tag, Src: s, Name: src[ix[10]:ix[11]], TrimL: ix[9] > ix[8], TrimR: ix[15] > ix[14], Line: line, Off: ts}
 			if ix[12] >= 0 {
 				t.Args = src[ix[12]:ix[13]]
+				// in a tag without arguments ({% name -%}) the shortest-match argument group takes the hyphen: it is
+				// the trim marker, not an argument
+				if hy := te - len(d[3]) - 1; !t.TrimR && src[hy] == '-' && ix[13] > hy {
+					t.TrimR = true
+					t.Args = strings.TrimRight(src[ix[12]:hy], " \t\r\n\f")
+				}
 			}
 			out = append(out, t)
 		}
